@@ -575,6 +575,8 @@ class Gen(object):
             cid = self.nid()
             probe = 1 if (self.on("probe") and t.choose(3) == 1) else 0
             opts = ["enter_context", "push_mgr", "push_fn", "push_method", "callback"]
+            if depth < self.cfg.max_depth:
+                opts.append("enter_es")
             if self.on("gcm") and depth < self.cfg.max_depth:
                 opts.append("enter_gcm")
             if is_async:
@@ -591,6 +593,13 @@ class Gen(object):
                     self.emit(fn, ind, "W.es_enter_context(%s, %s)" % (es, m))
                 else:
                     self.emit(fn, ind, "W.es_push(%s, %s, 'mgr')" % (es, m))
+            elif c == "enter_es":
+                # an exit stack registered on an exit stack (nested tree)
+                child = "es%d" % k
+                self.emit(fn, ind, "%s = W.es(F, %d, 0, host=%s)" % (child, k, es))
+                self.emit(fn, ind, "W.es_enter_context(%s, %s)" % (es, child))
+                sub = {"target": child, "is_async": False}
+                self.es_population(fn, ind, sub, depth + 1)
             elif c == "push_fn":
                 self.emit(fn, ind, "W.es_push(%s, W.exitfn(%s, F, %d, %d), 'fn')" % (es, es, cid, probe))
             elif c == "push_method":
